@@ -258,6 +258,45 @@ class _Skip(Exception):
     pass
 
 
+def _two_col_block(a):
+    '''a Frame whose columns p, q live in ONE 2-D block of a's dtype, plus a separate column r'''
+    if a.dtype.kind == 'O':
+        m = np.empty((len(a), 2), dtype=object)
+        m[:, 0] = a
+        m[:, 1] = a
+    else:
+        m = np.stack((a, a), axis=1)
+    m.flags.writeable = False
+    tb = sf.TypeBlocks.from_blocks((m, np.arange(len(a))))
+    return sf.Frame(tb, columns=('p', 'q', 'r'), index=_labels(len(a)))
+
+
+def site_frame_assign_frame_rows_second_block(a, b, e):
+    '''a Frame value whose columns are SEPARATE blocks (dtype of the target first, another dtype second) assigned into a proper
+    subset of the rows of two adjacent columns that share one 2-D block: the second value column must arrive intact'''
+    f = _two_col_block(a)
+    v = sf.Frame.from_items((('p', a[:1]), ('q', b[:1])), index=_labels(1))
+    r = f.assign.iloc[:1, :2](v)
+    return [b[0]] + list(a[1:]), r['q'].values, True, [a.dtype, b.dtype], [(f['r'].values.dtype, r['r'].values.dtype)]
+
+
+def site_frame_assign_frame_rows_first_block(a, b, e):
+    '''as above with the other dtype first'''
+    f = _two_col_block(a)
+    v = sf.Frame.from_items((('p', b[:1]), ('q', a[:1])), index=_labels(1))
+    r = f.assign.iloc[:1, :2](v)
+    return [b[0]] + list(a[1:]), r['p'].values, True, [a.dtype, b.dtype], [(f['r'].values.dtype, r['r'].values.dtype)]
+
+
+def site_frame_assign_frame_loc_rows(a, b, e):
+    '''label route, last row only, three value blocks (target dtype, other dtype, target dtype) into p, q and the separate column r untouched'''
+    f = _two_col_block(a)
+    lab = _labels(len(a))[-1]
+    v = sf.Frame.from_items((('p', a[-1:]), ('q', b[-1:])), index=[lab])
+    r = f.assign.loc[[lab], ['p', 'q']](v)
+    return list(a[:-1]) + [b[len(b) - 1]], r['q'].values, True, [a.dtype, b.dtype], [(f['r'].values.dtype, r['r'].values.dtype)]
+
+
 SITES = {k[5:]: v for k, v in list(globals().items()) if k.startswith('site_')}
 
 
